@@ -249,7 +249,7 @@ func (p *predicate) classify(l tt.Lit) (string, bool, bool) {
 	}
 	// slot == <Atoi of a list element>
 	if be, ok := e.(*ast.BinaryExpr); ok && (be.Op == token.EQL || be.Op == token.NEQ) && l.Loop != nil {
-		list, isElem := loopElem(info, l.Loop)
+		list, isElem := tt.LoopElem(info, l.Loop)
 		for _, pair := range [][2]ast.Expr{{be.X, be.Y}, {be.Y, be.X}} {
 			if !p.isParam(pair[0], 0) || list == nil {
 				continue
@@ -281,35 +281,6 @@ func (p *predicate) intOfElement(e ast.Expr, isElem func(ast.Expr) bool) bool {
 		return false
 	}
 	return isElem(call.Args[0])
-}
-
-// loopElem abstracts the loop form of a scan over a list: `for _, x := range l` (element x),
-// `for i := range l` and `for i := 0; i < len(l); i++` (element l[i]). It returns the list and a
-// test for "this expression is the current element".
-func loopElem(info *types.Info, loop ast.Stmt) (ast.Expr, func(ast.Expr) bool) {
-	same := func(a, b ast.Expr) bool { return a != nil && b != nil && pat.Same(info, a, b) }
-	indexed := func(list ast.Expr, idx ast.Expr) func(ast.Expr) bool {
-		return func(e ast.Expr) bool {
-			ix, ok := ast.Unparen(e).(*ast.IndexExpr)
-			return ok && same(ix.X, list) && same(ix.Index, idx)
-		}
-	}
-	switch s := loop.(type) {
-	case *ast.RangeStmt:
-		if s.Value != nil {
-			byIdx := indexed(s.X, s.Key)
-			return s.X, func(e ast.Expr) bool { return same(e, s.Value) || s.Key != nil && byIdx(e) }
-		}
-		if s.Key != nil {
-			return s.X, indexed(s.X, s.Key)
-		}
-	case *ast.ForStmt:
-		// for i := 0; i < len(l); i++
-		if b := pat.Expr("_i < len(_l)").Match(info, s.Cond, nil); b != nil {
-			return b["_l"].(ast.Expr), indexed(b["_l"].(ast.Expr), b["_i"].(ast.Expr))
-		}
-	}
-	return nil, func(ast.Expr) bool { return false }
 }
 
 func (p *predicate) checkpointKey() string {
@@ -556,7 +527,7 @@ func helperKind(c *core.Ctx, h *core.Fn, subjIdx, listIdx int) string {
 		if l.Loop == nil {
 			return "", false, false
 		}
-		list, isElemExpr := loopElem(info, l.Loop)
+		list, isElemExpr := tt.LoopElem(info, l.Loop)
 		if list == nil || !is(list, params[listIdx]) {
 			return "", false, false
 		}
